@@ -263,10 +263,13 @@ fn start_watchdog(limit_ms: u64) {
 pub fn run(args: &Args, rep: &mut Report) {
     let small = args.flag("small").is_some();
     if !small {
-        // memory blow-ups abort the worker instead of the machine
-        unsafe {
-            let lim = libc::rlimit { rlim_cur: 6 << 30, rlim_max: 6 << 30 };
-            libc::setrlimit(libc::RLIMIT_AS, &lim);
+        // memory blow-ups abort the worker instead of the machine. Not under AddressSanitizer: its shadow memory needs terabytes of
+        // address space, and its own allocator limit (ASAN_OPTIONS hard_rss_limit_mb, set by the driver) does the same job there.
+        if std::env::var_os("ASAN_OPTIONS").is_none() {
+            unsafe {
+                let lim = libc::rlimit { rlim_cur: 6 << 30, rlim_max: 6 << 30 };
+                libc::setrlimit(libc::RLIMIT_AS, &lim);
+            }
         }
         start_watchdog(20_000);
     }
